@@ -191,10 +191,10 @@ PROPS["C08"] = {
     "mirlex": True,
     "functions": ["MIR of <ec_core::operator::selector::lexicase::Lexicase as Selector<P>>::select"],
     "bounds": {
-        "quick": "populations x cases (n,m) in {(0,0),(0,2),(1,0),(1,2),(2,1),(2,2),(3,2),(2,3)}, every result a SYMBOLIC unbounded integer (ties, duplicates and every relative "
+        "quick": "populations x cases (n,m) in {(0,0),(0,2),(1,0),(1,2),(2,1),(2,2),(3,2),(2,3),(3,3),(4,2)}, every result a SYMBOLIC unbounded integer (ties, duplicates and every relative "
                  "order decided by z3 at the three-way comparison), both polarities (scores / errors), every case order and every final order of the survivors (the shuffle models fork "
                  "over all permutations): returned individual in REF(sigma), candidate set before the final choice == REF(sigma), not Pareto-dominated, Ok iff non-empty",
-        "thorough": "as quick plus (3,3) and (4,2)",
+        "thorough": "as quick plus (4,3) and (3,4)",
     },
     "outside": "uniformity of the case order and of the final choice is rand's documented shuffle contract (modelled as 'any permutation'): the probability law of the statement follows from "
                "X2 arithmetically and is not re-proved; populations of more than 4 individuals / more than 3 cases; individuals with missing results (decided for <= 1 case under C06); "
